@@ -22,6 +22,7 @@
 #include <sstream>
 #include <stack>
 #include <sys/stat.h>
+#include <atomic>
 #include <thread>
 #include <unistd.h>
 #include <vector>
@@ -531,6 +532,52 @@ int main(int argc, char** argv) {
    FILE* f = fopen(script, "r");
    if (!f) { fprintf(stderr, "cannot open %s\n", script); return 3; }
    std::string line;
+   const long nthreads = vh::argnum(argc, argv, "--threads", 0);
+   if (nthreads > 0) {
+      // C09: every block (Reset + its Eval actions) is executed by its own thread; all threads of a
+      // batch start from a spin barrier (relaxed atomics only: no happens-before edges are added that
+      // could hide a race from ThreadSanitizer) and run `--rounds` times.
+      struct Block { vj::Value cfg; std::vector<vj::Value> acts; };
+      std::vector<Block> blocksv;
+      while (vj::getline(f, line)) {
+         if (line.empty()) continue;
+         vj::Value act = vj::parse(line);
+         if (act["n"].str() == "Reset") { blocksv.push_back(Block{act["cfg"], {}}); continue; }
+         if (!blocksv.empty() && act["n"].str() == "Eval") blocksv.back().acts.push_back(act);
+      }
+      fclose(f);
+      const long rounds = vh::argnum(argc, argv, "--rounds", 1);
+      vh::Rng rng(static_cast<uint64_t>(vh::argnum(argc, argv, "--seed", 1)));
+      for (size_t base = 0; base < blocksv.size(); base += static_cast<size_t>(nthreads)) {
+         const size_t n = std::min(static_cast<size_t>(nthreads), blocksv.size() - base);
+         std::vector<std::string> outs(n);
+         std::vector<long> skew(n);
+         for (auto& sk : skew) sk = static_cast<long>(rng.below(2000));
+         std::atomic<int> ready{0};
+         std::atomic<bool> go{false};
+         std::vector<std::thread> ths;
+         for (size_t t = 0; t < n; ++t) {
+            ths.emplace_back([&, t]() {
+               vj::Line::sink() = &outs[t];
+               const Block& b = blocksv[base + t];
+               const std::string cj = dump(b.cfg);
+               vj::Line().str("e", "Reset").raw("cfg", cj).emit();
+               ready.fetch_add(1, std::memory_order_relaxed);
+               while (!go.load(std::memory_order_relaxed)) {}
+               for (volatile long k = 0; k < skew[t]; ++k) {}
+               for (long r = 0; r < rounds; ++r)
+                  for (auto& a : b.acts) doEval(b.cfg, a, cj);
+               vj::Line::sink() = nullptr;
+            });
+         }
+         while (ready.load(std::memory_order_relaxed) < static_cast<int>(n)) {}
+         go.store(true, std::memory_order_relaxed);
+         for (auto& th : ths) th.join();
+         for (auto& o : outs) fwrite(o.data(), 1, o.size(), stdout);
+      }
+      vh::end();
+      return 0;
+   }
    vj::Value cfg;
    std::string cfgJson;
    const long skip = vh::argnum(argc, argv, "--skip", 0);
